@@ -108,16 +108,21 @@ func nullSites(info *types.Info, fd *ast.FuncDecl) []ast.Node {
 func c02r2(rc *core.RC) {
 	p := rc.P
 	kinds := decoderKinds(rc)
-	nilable := map[string]bool{"Ptr": true, "Map": true, "Slice": true, "Interface": true, "Func": true}
+	// encoding/json (literalStore): null sets an interface, pointer, map or slice to nil and leaves a destination of
+	// every other kind as it is. A func can hold nil, but null does not make it nil.
+	nilable := map[string]bool{"Ptr": true, "Map": true, "Slice": true, "Interface": true}
 	n := 0
 	for dname, ks := range kinds {
-		all := len(ks) > 0
+		all, keeps := len(ks) > 0, len(ks) > 0
 		for k := range ks {
 			if !nilable[k] {
 				all = false
 			}
+			if k != "Func" {
+				keeps = false
+			}
 		}
-		if !all {
+		if !all && !keeps {
 			continue
 		}
 		for _, m := range []string{"Decode", "DecodeStream"} {
@@ -209,6 +214,18 @@ func c02r2(rc *core.RC) {
 				})
 				delegates = delegates && !reads
 			}
+			if keeps {
+				key = fn + "/null-leaves-destination"
+				switch {
+				case !found:
+					rc.Unknown(key, fd.Pos(), "no handling of the value null recognised (neither `case 'n'` nor `== 'n'`)")
+				case stores:
+					rc.Bad(key, fd.Pos(), "%s decodes into a func destination and its null path stores through the destination: null makes a func nil where encoding/json leaves it as it is", dname)
+				default:
+					rc.OK(key, fd.Pos(), "the null path stores nothing: a func keeps its value")
+				}
+				continue
+			}
 			switch {
 			case delegates:
 				rc.OK(key, fd.Pos(), "reads no input byte; the value, null included, is decoded by the inner Decoder")
@@ -241,15 +258,31 @@ func c02r3(rc *core.RC) {
 		rc.Touch("decoder." + fn)
 		info := p.Info(fd)
 		tested := false
-		ast.Inspect(fd.Body, func(m ast.Node) bool {
-			if ifs, ok := m.(*ast.IfStmt); ok {
-				if f := core.FieldOf(info, ifs.Cond); f != nil && f.Name() == "UseNumber" {
-					tested = true
+		var look func(fd *ast.FuncDecl, info *types.Info, depth int)
+		look = func(fd *ast.FuncDecl, info *types.Info, depth int) {
+			ast.Inspect(fd.Body, func(m ast.Node) bool {
+				switch x := m.(type) {
+				case *ast.IfStmt:
+					if f := core.FieldOf(info, x.Cond); f != nil && f.Name() == "UseNumber" {
+						tested = true
+					}
+				case *ast.CallExpr:
+					// the work may be done by a method of the same receiver (Token hands on to token)
+					if depth < 1 {
+						if callee := core.Callee(info, x); callee != nil {
+							if sig, _ := callee.Type().(*types.Signature); sig != nil && sig.Recv() != nil {
+								if d := p.DeclOf(callee); d != nil && d.Body != nil && d.Recv != nil && p.PkgOfDecl(d) == p.PkgOfDecl(fd) {
+									look(d, p.Info(d), depth+1)
+								}
+							}
+						}
+					}
 				}
-			}
-			return true
-		})
-		rc.Check(tested, key, fd.Pos(), "the kind of number stored is chosen by a test of s.UseNumber")
+				return true
+			})
+		}
+		look(fd, info, 0)
+		rc.Check(tested, key, fd.Pos(), "the kind of number stored is chosen by a test of s.UseNumber (in the function or in the method of the same package it hands the work to)")
 	}
 	if fd := p.Func("decoder", "interfaceDecoder.decodeStreamEmptyInterface"); fd != nil {
 		info := p.Info(fd)
@@ -1316,5 +1349,48 @@ func c02r11(rc *core.RC) {
 	}
 	if n < 2 {
 		rc.Unknown("decoder/interface-decoder", token.NoPos, "found %d of the two interface decoder methods", n)
+	}
+}
+
+// ---- C02.R12 null is taken by the decoder of the kinds that cannot be decoded ----
+
+// For a destination of a kind encoding/json cannot decode (chan, complex, unsafe.Pointer) every JSON value is an
+// UnmarshalTypeError except null, which is no value and leaves any destination as it is. invalidDecoder is what
+// compile returns for those kinds (C02.R1): its Decode and DecodeStream have to test for the literal before they
+// answer with the error.
+func c02r12(rc *core.RC) {
+	p := rc.P
+	n := 0
+	for _, m := range []string{"Decode", "DecodeStream"} {
+		fd := p.Func("decoder", "invalidDecoder."+m)
+		if fd == nil || fd.Body == nil {
+			rc.Unknown("decoder.invalidDecoder."+m, token.NoPos, "method not found")
+			continue
+		}
+		n++
+		info := p.Info(fd)
+		fn := "decoder.(*invalidDecoder)." + m
+		rc.Touch(fn)
+		sites := nullSites(info, fd)
+		ok := false
+		for _, s := range sites {
+			// the branch ends without the type error: it returns the result of the null reader or a cursor
+			ast.Inspect(s, func(x ast.Node) bool {
+				if r, isRet := x.(*ast.ReturnStmt); isRet {
+					last := r.Results[len(r.Results)-1]
+					if tv, has := info.Types[last]; has && tv.IsNil() {
+						ok = true
+					}
+					if c, isCall := core.Unparen(last).(*ast.CallExpr); isCall && core.CalleeName(info, c) == "decoder.nullBytes" {
+						ok = true
+					}
+				}
+				return true
+			})
+		}
+		rc.Check(ok, fn+"/null-accepted", fd.Pos(), "the decoder of the kinds that cannot be decoded tests for the literal null and returns without an error for it (null leaves a chan, complex or unsafe.Pointer member as it is in encoding/json; every other value is the type error)")
+	}
+	if n < 2 {
+		rc.Unknown("decoder.invalidDecoder/methods", token.NoPos, "found %d of Decode/DecodeStream", n)
 	}
 }
